@@ -19,7 +19,8 @@ fn mk_counts(reader: Reader, cip: u64, content_count: u32, cluster_count: u32, t
         uuid: uuid::Uuid::from_bytes([1u8; 16]), flags: 0, file_size: Size::new(cip + 37 + 64), check_info_pos: Offset::new(cip) };
     let header = ContentPackHeader::new(PackFreeData::from([0u8; 24]), Offset::new(table_at), ClusterCount::from(cluster_count), Offset::new(table_at), ContentCount::from(content_count));
     let content_infos = ArrayReader::new_memory_from_reader(&reader, Offset::new(table_at), Count::from(content_count)).unwrap();
-    let cluster_ptrs = ArrayReader::new_memory_from_reader(&reader, Offset::new(table_at), Count::from(0u32)).unwrap();
+    // an empty table: just its checksum
+    let cluster_ptrs = ArrayReader::new_memory_from_reader(&reader, Offset::new(if table_at == 0 { 0 } else { 28 }), Count::from(0u32)).unwrap();
     ContentPack {
         pack_header, header, content_infos, cluster_ptrs,
         cluster_cache: Mutex::new(LruCache::with_hasher(NonZeroUsize::new(1).unwrap(), FxBuildHasher::default())),
@@ -56,6 +57,9 @@ vharness! {
         kani::assume(count <= 3);
         let clusters: u32 = kani::any();
         kani::assume(clusters <= 3);
+        // native replay: the table block and the empty cluster table carry real checksums
+        native_set_crc(&mut img, 4, 4 * count as usize, true);
+        native_set_crc(&mut img, 28, 0, true);
         let pack = mk_counts(Reader::from(img), 20, count, clusters, 4);
         assert!(pack.get_content_count().into_u32() == count, "VERIF: content count");
         let idx: u32 = kani::any();
